@@ -112,6 +112,8 @@ def generate(seed: int, tier: str = "quick") -> dict:
                 s[i] = A.dstr(Decimal(s[i]) * mult, 12)
         faults.append({"kind": "price_shock", "bar": bs})
     program = [p for _, p in sorted(enumerate(program), key=lambda e: (e[1]["bar"], PHASES.index(e[1]["phase"]), e[0]))]
+    if A.add_bystander(R.sub(seed, "bystander"), world) is not None:
+        faults.append({"kind": "second_market_of_the_same_kind_registered_first"})
     return {"property": ID, "seed": seed, "world": world, "program": program, "faults": faults, "opts": {"sweep": rw.random() < 0.5}}
 
 
@@ -363,13 +365,13 @@ def shrink_candidates(scenario):
             c = copy.deepcopy(scenario)
             c["world"]["prices"][t] = [series[0]] * len(series)
             yield c
-    mw = w["markets"][0]
+    mw = A.market_of(w)
     for col in ("liquidity_rate", "variable_borrow_rate", "stable_borrow_rate"):
         for t, series in mw.get(col, {}).items():
             if any(x != "0" for x in series):
                 c = copy.deepcopy(scenario)
-                for tt in c["world"]["markets"][0][col]:
-                    c["world"]["markets"][0][col][tt] = ["0"] * len(series)
+                for tt in A.market_of(c["world"])[col]:
+                    A.market_of(c["world"])[col][tt] = ["0"] * len(series)
                 yield c
                 break
 
